@@ -71,18 +71,16 @@ static bool call_validate(const char* file, uint32_t* sig, ErrorCode* ec) {
     return ok;
 }
 
-static void report(const std::string& cls, JFields tags, int64_t lib, const Cfg& cfg, int cycle, int cycles, const std::string& detail) {
+static void report(const std::string& cls, JFields tags, int64_t lib, const Cfg& cfg, int cycle, int cycles, const std::string& detail, const JFields& numbers = {}) {
     const oas_corpus::Info& info = oas_corpus::info(lib);
-    tags.push_back({"family", jstr(info.family)});
-    tags.push_back({"flags", jint(cfg.flags)});
-    tags.push_back({"level", jint(cfg.level)});
-    tags.push_back({"circle_tolerance", jnum(cfg.tol)});
+    // tags hold class-level predicates only (the engine caps the output per class + tag values); the
+    // configuration and measurements of the individual case go into the case description
     bool has_cycle = false;
     for (auto& t : tags) if (t.first == "cycle") has_cycle = true;
     if (!has_cycle) tags.push_back({"cycle", jint(cycle)});
     std::string cj = jobj({{"library", jint(lib)}, {"family", jstr(info.family)}, {"member", jstr(info.desc)}, {"flags", jstr(fmt("0x%02x", cfg.flags))}, {"flag_names", jstr(flag_names(cfg.flags))},
-                           {"level", jint(cfg.level)}, {"circle_tolerance", jnum(cfg.tol)}, {"cycle", jint(cycle)}});
-    R->violation(SUB, cls, tags, cj, detail, fmt("lib=%lld flags=%u level=%u tol=%.17g cycles=%d", (long long)lib, cfg.flags, cfg.level, cfg.tol, cycles));
+                           {"level", jint(cfg.level)}, {"circle_tolerance", jnum(cfg.tol)}, {"cycle", jint(cycle)}, {"measurements", jobj(numbers)}});
+    R->violation(SUB, cls, tags, cj, detail, fmt("lib=%lld key=%s flags=%u level=%u tol=%.17g cycles=%d", (long long)lib, oas_corpus::key(lib).c_str(), cfg.flags, cfg.level, cfg.tol, cycles));
     if (g_verbose) fprintf(stderr, "VIOLATION class=%s cycle=%d\n  %s\n", cls.c_str(), cycle, detail.c_str());
 }
 
@@ -160,7 +158,7 @@ static int run_case(int64_t lib_index, const Cfg& cfg, int cycles) {
             else { mine = 0; for (size_t i = 0; i < n - 4; i++) mine += bytes[i]; }
             int scheme = bytes[n - 5];
             if (scheme != (want_crc ? 1 : 2) || mine != stored) {
-                report(std::string("signature:") + (want_crc ? "crc32" : "checksum32"), {{"scheme_byte", jint(scheme)}, {"compressed", jbool(cfg.level > 0)}}, lib_index, cfg, cycle, cycles,
+                report(std::string("signature:") + (want_crc ? "crc32" : "checksum32"), {{"scheme_byte_ok", jbool(scheme == (want_crc ? 1 : 2))}, {"compressed", jbool(cfg.level > 0)}}, lib_index, cfg, cycle, cycles,
                        fmt("validation scheme byte %d (expected %d), stored signature 0x%08x, own %s over the first %zu bytes 0x%08x", scheme, want_crc ? 1 : 2, stored, want_crc ? "CRC32" : "byte sum", n - 4, mine));
                 nviol++;
             }
@@ -221,7 +219,7 @@ static int run_case(int64_t lib_index, const Cfg& cfg, int cycles) {
         for (auto& d : diffs) {
             std::string cls = d.cls;
             if (cycle > 1) cls = "cycle" + std::string(cycle == 2 ? "2" : "3+") + ":" + cls;
-            report(cls, d.tags, lib_index, cfg, cycle, cycles, d.detail);
+            report(cls, d.tags, lib_index, cfg, cycle, cycles, d.detail, d.numbers);
             outcome += "|" + cls;
             nviol++;
         }
@@ -282,13 +280,14 @@ static void run_tasks(const std::string& name, const std::string& bound_desc, st
     };
     auto replay_of = [&](int64_t i) {
         const Task& t = tasks[i];
-        std::string s = fmt("lib=%lld cycles=%d chunk=", (long long)t.lib, t.cycles);
+        std::string s = fmt("lib=%lld key=%s cycles=%d chunk=", (long long)t.lib, oas_corpus::key(t.lib).c_str(), t.cycles);
         for (size_t k = 0; k < t.cfgs.size(); k++) s += fmt("%s%u/%u/%g", k ? "," : "", t.cfgs[k].flags, t.cfgs[k].level, t.cfgs[k].tol);
         return s;
     };
     double t0 = vf::now();
     bool ok = vf::parallel_for(*R, (int64_t)tasks.size(), body, describe, replay_of, vf::PFOptions{timeout_s, SUB, true});
-    R->bound(name, bound_desc, ok, ncases, {{"tasks", jint((int64_t)tasks.size())}, {"wall_s", jnum(vf::now() - t0)}});
+    // for a bound cut short by the deadline only the planned size is known here (the executed cases are in the counters)
+    R->bound(name, bound_desc, ok, ok ? ncases : 0, {{"planned_cases", jint(ncases)}, {"tasks", jint((int64_t)tasks.size())}, {"wall_s", jnum(vf::now() - t0)}});
 }
 
 int main(int argc, char** argv) {
@@ -303,7 +302,11 @@ int main(int argc, char** argv) {
         int64_t lib = atoll(run.rarg("lib").c_str());
         int cycles = atoi(run.rarg("cycles").c_str());
         if (cycles < 1) cycles = 1;
-        if (lib < 0 || lib >= N) { run.internal_error("replay: no such library"); return run.finish(); }
+        if (!run.rarg("key").empty()) {
+            lib = oas_corpus::find_key(run.rarg("key"));  // the index may have shifted since the replay file was written
+            if (lib < 0) { run.internal_error("replay: the corpus no longer contains the library with key " + run.rarg("key")); run.finish(); return 2; }
+        }
+        if (lib < 0 || lib >= N) { run.internal_error("replay: no such library"); run.finish(); return 2; }
         std::vector<Cfg> cfgs;
         std::string chunk = run.rarg("chunk");
         if (!chunk.empty()) {
@@ -341,6 +344,11 @@ int main(int argc, char** argv) {
                             (long long)n_lattice, (long long)n_rep, (long long)n_reduced);
         for (auto& kv : fam) s += " " + kv.first + "=" + std::to_string(kv.second);
         run.note(s);
+    }
+    {
+        std::set<std::string> keys;
+        for (int64_t i = 0; i < N; i++)
+            if (!keys.insert(oas_corpus::key(i)).second) run.internal_error("corpus members " + oas_corpus::describe(i) + " and an earlier one share a key");
     }
     for (int64_t i : {(int64_t)0, N / 3, N - 2}) run.sample(SUB, oas_corpus::describe(i));
 
@@ -407,9 +415,10 @@ int main(int argc, char** argv) {
         if (thorough) {
             twice = product(single_flag_sets(), {0, 1, 9}, {0});
         } else {
-            once = product({0, OASIS_CONFIG_DETECT_RECTANGLES, OASIS_CONFIG_DETECT_TRAPEZOIDS, 0xFF}, {0, 6}, {0});
-            once.push_back({OASIS_CONFIG_DETECT_ALL, 6, 0});
-            twice = {{OASIS_CONFIG_DETECT_ALL, 0, 0}};
+            for (auto& c : product(single_flag_sets(), {0, 6}, {0})) {
+                bool two = (c.flags == OASIS_CONFIG_DETECT_ALL && c.level == 0) || (c.flags == 0xFF && c.level == 6);
+                (two ? twice : once).push_back(c);
+            }
         }
         for (int64_t i = 0; i < N; i++) {
             if (!oas_corpus::info(i).lattice) continue;
@@ -418,7 +427,7 @@ int main(int argc, char** argv) {
             add_tasks(tasks, i, twice, 64, 2);
         }
         run_tasks("lattice", thorough ? fmt("%lld lattice polygons (each its own library) x flag sets {0, DETECT_ALL, 0xFF, each single flag} x level {0,1,9} x 2 cycles", (long long)nlibs)
-                                      : fmt("%lld lattice polygons (each its own library) x flag sets {0, RECT, TRAP, DETECT_ALL, 0xFF} x level {0,6}, DETECT_ALL/level 0 with 2 cycles", (long long)nlibs),
+                                      : fmt("%lld lattice polygons (each its own library) x flag sets {0, DETECT_ALL, 0xFF, each single flag} x level {0,6}; 1 cycle, DETECT_ALL/level 0 and 0xFF/level 6 with 2 cycles", (long long)nlibs),
                   tasks, 20);
     }
     // ---- 4. thorough: the heavy library (buffer growth inside a CBLOCK) under a few configurations
